@@ -767,6 +767,28 @@ def gen_reader(dbmap_path, outp, tier):
         ]:
             doc = '<roblox version="4"><Item class="ZzUnknownThing" referent="RBX0"><Properties><string name="Name">f</string>%s</Properties></Item></roblox>' % prop_xml(tag, "V", inner)
             emit(doc, [{"class": "ZzUnknownThing", "name": "f", "props": {"V": rendered}, "children": []}], "float-spelling:" + text.strip(), "unknown")
+    # integer spellings ("a number in the range ..."; only a leading '+' is ruled out): leading
+    # zeros, a negative zero, in every integer-carrying position
+    for text, val in [("0700", 700), ("007", 7), ("-007", -7), ("00", 0), ("-0", 0), ("000000000000000000000300", 300)]:
+        rows = [
+            ("int", text, "Int32:%d" % val),
+            ("int64", text, "Int64:%d" % val),
+            ("UDim", "<S>0.5</S><O>%s</O>" % text, "UDim(%s,%d)" % (f32s(0.5), val)),
+            ("UDim2", "<XS>0.5</XS><XO>%s</XO><YS>1</YS><YO>%s</YO>" % (text, text), "UDim2(%s,%d,%s,%d)" % (f32s(0.5), val, f32s(1.0), val)),
+            ("Vector3int16", "<X>%s</X><Y>0</Y><Z>%s</Z>" % (text, text), "Vector3int16(%d,0,%d)" % (val, val)),
+        ]
+        unsigned_ok = not text.startswith("-")  # (an unsigned field written with a minus sign is not claimed)
+        if val >= 0 and unsigned_ok:
+            rows.append(("token", text, "Enum:%d" % val))
+        if val in (700, 300):
+            rows.append(("Font", "<Family><url>rbxasset://fonts/families/Arial.json</url></Family><Weight>%s</Weight><Style>Normal</Style>" % text, "Font(%s,%d,0,none)" % (hexs(b"rbxasset://fonts/families/Arial.json"), val)))
+        if 0 <= val < 64 and unsigned_ok:
+            rows.append(("Faces", "<faces>%s</faces>" % text, "Faces:%d" % val))
+        if 0 <= val < 8 and unsigned_ok:
+            rows.append(("Axes", "<axes>%s</axes>" % text, "Axes:%d" % val))
+        for tag, inner, rendered in rows:
+            doc = '<roblox version="4"><Item class="ZzUnknownThing" referent="RBX0"><Properties><string name="Name">i</string>%s</Properties></Item></roblox>' % prop_xml(tag, "V", inner)
+            emit(doc, [{"class": "ZzUnknownThing", "name": "i", "props": {"V": rendered}, "children": []}], "int-spelling:" + text[:6], "unknown")
     # strings: CDATA vs escaped, whitespace preservation, ProtectedString / string
     for label, s in [("plain", "Hello"), ("lead-trail-ws", "  padded  "), ("markup", "<&>\"'"), ("newlines", "a\nb\tc"), ("cdata-end", "x]]>y"), ("ws-only", "   "), ("empty", "")]:
         for form in ("escaped", "cdata"):
